@@ -106,8 +106,13 @@ where
         create_effect_initial(move || {
             scope.run_in(move || {
                 let nodes = map_keyed(list, move |x| view(x).into().as_web_sys(), key);
-                // Flatten nodes.
-                let flattened = nodes.map(|x| x.iter().flatten().cloned().collect::<Vec<_>>());
+                // Flatten nodes. An item's nodes are collected from the DOM again because a dynamic
+                // view at the top level of the item may have replaced some of them since.
+                let flattened = nodes.map(|x| {
+                    x.iter()
+                        .flat_map(|item| utils::live_nodes(item))
+                        .collect::<Vec<_>>()
+                });
                 let view = flattened.with(|x| {
                     View::from_nodes(
                         x.iter()
@@ -208,8 +213,13 @@ where
         create_effect_initial(move || {
             scope.run_in(move || {
                 let nodes = map_indexed(list, move |x| view(x).into().as_web_sys());
-                // Flatten nodes.
-                let flattened = nodes.map(|x| x.iter().flatten().cloned().collect::<Vec<_>>());
+                // Flatten nodes. An item's nodes are collected from the DOM again because a dynamic
+                // view at the top level of the item may have replaced some of them since.
+                let flattened = nodes.map(|x| {
+                    x.iter()
+                        .flat_map(|item| utils::live_nodes(item))
+                        .collect::<Vec<_>>()
+                });
                 let view = flattened.with(|x| {
                     View::from_nodes(
                         x.iter()
